@@ -316,3 +316,14 @@ func Note(s string) {
 	mu.Unlock()
 	fmt.Println("VRT-NOTE " + s)
 }
+
+// Watch registers a memory location (pass its address) for lock-set checking; WatchOn switches the recording
+// on and off; WatchReport returns the locations that are written while watching and have no lock that is held
+// at every access (exclusively at every write). Symbolic engine only. INTERCEPTED.
+func Watch(ptr any, name string) {}
+func WatchOn(on bool)            {}
+func WatchReport() []string      { return nil }
+
+// RunAs runs fn as another thread with respect to lock ownership (the engine is single threaded; background
+// steps that the harness scheduler runs must not inherit the client's locks). INTERCEPTED.
+func RunAs(thread int, fn func()) { fn() }
